@@ -2086,6 +2086,9 @@ static int32_t parse_XTA(ParserBuilder *aParserBuilder,
     // The lexer sets yylloc per token: without this, an error on empty input is
     // reported at the last token of the previous parse.
     yylloc.start = yylloc.end = tracker.position;
+    // An exception thrown through the lexer (e.g. by a builder callback) may
+    // have left it inside a comment.
+    BEGIN(INITIAL);
 
     // Parse string
     int res = 0;
@@ -2111,6 +2114,7 @@ static int32_t parseProperty(ParserBuilder *aParserBuilder, const std::string& x
     // Reset position tracking
     tracker.setPath(ch, xpath);
     yylloc.start = yylloc.end = tracker.position;
+    BEGIN(INITIAL);
 
     return utap_parse() ? -1 : 0;
 }
